@@ -176,8 +176,10 @@ def run(ctx):
     if ctx.replay_case is not None:
         cases = [ctx.replay_case]
     else:
+        state = ctx.rng.getstate()     # the volumes below are the same whether or not a translation succeeded
         mc_gen.run(ctx)
         mc_fns.run(ctx)
+        ctx.rng.setstate(state)
         cases = gen_cases(ctx, 260 if quick else 4000)
     for start in range(0, len(cases), 200):
         run_chunk(ctx, model, cases[start:start + 200])
